@@ -644,7 +644,42 @@ func ruleRawLine(c *Ctx, rule string, shorts ...string) {
 				case *ssa.Store:
 					note(r, "a store of the untrimmed line")
 				case *ssa.Return:
-					note(r, "a return of the untrimmed line")
+					// a private helper that hands the assembled line back: what its callers do with it
+					g := r.Parent()
+					followed := false
+					if g != nil && g.Pkg != nil && !ast.IsExported(g.Name()) {
+						for idx, res := range r.Results {
+							if res != v {
+								continue
+							}
+							for _, h := range srcFuncs(g.Pkg) {
+								for _, hb := range h.Blocks {
+									for _, hi := range hb.Instrs {
+										hc, ok := hi.(*ssa.Call)
+										if !ok || hc.Call.StaticCallee() != g {
+											continue
+										}
+										var got ssa.Value = hc
+										if len(r.Results) > 1 {
+											ex := extractOf(hc, idx)
+											if ex == nil {
+												continue
+											}
+											got = ex
+										}
+										followed = true
+										if !raw[got] {
+											raw[got] = true
+											work = append(work, got)
+										}
+									}
+								}
+							}
+						}
+					}
+					if !followed {
+						note(r, "a return of the untrimmed line")
+					}
 				case *ssa.MakeInterface, *ssa.Convert, *ssa.ChangeType:
 					note(r.(ssa.Instruction), "a conversion of the untrimmed line")
 				}
